@@ -2051,7 +2051,10 @@ func JsonObject(ctx context.Context, scope *ReferenceScope, fn parser.Function) 
 	for i := range view.RecordSet[0] {
 		record[i] = view.RecordSet[0][i][0]
 	}
-	structure, _ := json.ConvertRecordValueToJsonStructure(pathes, record)
+	structure, err := json.ConvertRecordValueToJsonStructure(pathes, record)
+	if err != nil {
+		return nil, NewFunctionInvalidArgumentError(fn, fn.Name, err.Error())
+	}
 
 	encoder := txjson.NewEncoder()
 	encoder.EscapeType = scope.Tx.Flags.ExportOptions.JsonEscape
